@@ -439,9 +439,10 @@ func decodeRange(data []byte, oid int) string {
 
 	// Read upper bound if present (may need alignment)
 	if !ubInf {
-		// Align offset for upper bound
+		// Align offset for upper bound. PostgreSQL aligns relative to the start of
+		// the datum, which includes the 4-byte varlena header stripped from data.
 		if elemSize > 1 {
-			offset = align(offset, elemSize)
+			offset = align(offset+4, elemSize) - 4
 		}
 		if offset+elemSize > dataEnd {
 			return "[?,?]"
